@@ -147,8 +147,25 @@ class LoopContract:
         else:
             for label, t in self.inv(I, fr, entry, seq, n):
                 ctx.assume(t)
+            # python leaves the loop variable bound to the last element: only modelled (by a fork on emptiness)
+            # when the function reads that name after the loop
+            if _target_read_after(fr.fi, st):
+                if ctx.branch(n > 0):
+                    I.assign(st.target, seq.elem(n - 1), fr)
             I.exec_block(st.orelse, fr)
             return
+
+
+def _target_read_after(fi, loop):
+    import ast
+    if fi is None:
+        return False
+    names = {n.id for n in ast.walk(loop.target) if isinstance(n, ast.Name)}
+    end = getattr(loop, "end_lineno", loop.lineno)
+    for n in ast.walk(fi.node):
+        if isinstance(n, ast.Name) and isinstance(n.ctx, ast.Load) and n.id in names and n.lineno > end:
+            return True
+    return False
 
 
 class Registry:
